@@ -564,6 +564,8 @@ pub fn main(ctx: &Ctx, prop: Prop) -> ! {
     if prop == Prop::C04 {
         crate::c04::extra(ctx, &stats);
     }
+    // whole-table sweeps (doctype identifiers, foreign fix-up tables, every element name in context templates)
+    let table_sweeps = if prop != Prop::C18 { crate::sweeps::run(ctx, prop, &stats) } else { json!(null) };
     let mut xml_runs = 0u64;
     if prop == Prop::C04 || prop == Prop::C05 {
         xml_runs = crate::c04::xml_jobs(ctx, prop, &stats);
@@ -588,6 +590,7 @@ pub fn main(ctx: &Ctx, prop: Prop) -> ! {
     ctx.finish(
         level,
         json!({
+            "table_sweeps": table_sweeps,
             "states": states,
             "transitions": transitions,
             "traces_validated_against_impl": stats.execs.load(Ordering::Relaxed),
